@@ -712,10 +712,12 @@ fn emit_and_exit(rep: &Report) -> ! {
     std::process::exit(0)
 }
 
+const STORM_ROLES: [&str; 8] = ["compile", "runtime", "item", "item", "handle", "item", "handle", "compile"];
+
 fn refcount_storm(c: &Case, rep: &mut Report) {
     let mut p = c.prng(3);
     let variant = ["function-item", "library-closure", "constant"][(c.index % 3) as usize];
-    let threads = 4 + p.below(5) as usize;
+    let threads = 5 + p.below(4) as usize;
     let rounds = (if c.thorough() { 480_000 } else { 120_000 }) * c.mult();
     let compiles = (if c.thorough() { 12 } else { 6 }) * c.mult().min(4);
     let rt_clones = rounds / 400;
@@ -725,7 +727,8 @@ fn refcount_storm(c: &Case, rep: &mut Report) {
     let is_const = variant == "constant";
     let src = if is_const { TOK_SCRIPT } else { BUMP_SCRIPT };
     let params = json!({"variant": variant, "threads": threads, "clone_drop_rounds_per_thread": rounds, "compilations_per_compiling_thread": compiles,
-        "runtime_clones_per_cloning_thread": rt_clones, "held_clones": held_n, "call_argument": n_arg, "attempt": c.attempt, "source": src});
+        "runtime_clones_per_cloning_thread": rt_clones, "held_clones": held_n, "call_argument": n_arg,
+        "thread_roles": (&STORM_ROLES[..threads]), "attempt": c.attempt, "source": src});
     let case = c.json();
     announce(&params);
     rep.hist("share-class", "refcount-storm");
@@ -820,6 +823,18 @@ fn refcount_storm(c: &Case, rep: &mut Report) {
         })
         .collect();
 
+    // a handle retrieved before the concurrent phase: threads clone, call and drop it
+    // (the module's own reference count, which keeps the registered closures alive)
+    let pre_handle = match compile_and_get(&rt) {
+        Ok((_pkg, f)) => f,
+        Err(e) => {
+            rep.mismatch("share refcount-storm: the script does not compile", json!({"case": case, "source": src, "error": e}));
+            return;
+        }
+    };
+    // thread roles: 0 and 7 compile, 1 clones the runtime, 4 and 6 clone the handle, the others clone the item
+    let role = |tid: usize| -> &'static str { STORM_ROLES[tid % 8] };
+
     let calls0 = calls.load(Ordering::SeqCst);
     let storm_calls = AtomicUsize::new(0);
     let compiled = AtomicU64::new(0);
@@ -829,11 +844,12 @@ fn refcount_storm(c: &Case, rep: &mut Report) {
         for tid in 0..threads {
             let (owner, rt, held) = (&owner, &rt, &held);
             let (barrier, bad, storm_calls, compiled, total_drops) = (&barrier, &bad, &storm_calls, &compiled, &total_drops);
-            let compile_and_get = &compile_and_get;
+            let (compile_and_get, pre_handle) = (&compile_and_get, &pre_handle);
+            let role = role(tid);
             s.spawn(move || {
                 barrier.wait();
-                match tid % 4 {
-                    0 => {
+                match role {
+                    "compile" => {
                         // compile against the ONE shared runtime, call, drop package and handle
                         for k in 0..compiles {
                             let Ok((pkg, f)) = compile_and_get(rt) else {
@@ -857,7 +873,21 @@ fn refcount_storm(c: &Case, rep: &mut Report) {
                             compiled.fetch_add(1, Ordering::Relaxed);
                         }
                     }
-                    1 => {
+                    "handle" => {
+                        for k in 0..rounds {
+                            let h = pre_handle.clone();
+                            if k % 4096 == 0 {
+                                let r = h.call(2);
+                                storm_calls.fetch_add(2, Ordering::SeqCst);
+                                let ok = if is_const { r == 2 * tok_id } else { r >= 2 };
+                                if !ok {
+                                    bad.push(json!({"thread": tid, "op": "call through a clone of a shared handle during the storm", "iteration": k, "arg": 2, "got": r}));
+                                }
+                            }
+                            drop(h);
+                        }
+                    }
+                    "runtime" => {
                         for k in 0..rt_clones {
                             let r2 = rt.clone();
                             if k % 8 == 0 {
@@ -886,7 +916,7 @@ fn refcount_storm(c: &Case, rep: &mut Report) {
     let storm_calls = storm_calls.load(Ordering::SeqCst);
     rep.evaluations += compiled.load(Ordering::Relaxed);
     *rep.histograms.entry("share-ops".into()).or_default().entry("refcount-storm compilations".into()).or_insert(0) += compiled.load(Ordering::Relaxed);
-    *rep.histograms.entry("share-ops".into()).or_default().entry("refcount-storm clone+drop".into()).or_insert(0) += rounds * (0..threads).filter(|t| t % 4 >= 2).count() as u64;
+    *rep.histograms.entry("share-ops".into()).or_default().entry("refcount-storm clone+drop".into()).or_insert(0) += rounds * (0..threads).filter(|&t| role(t) == "item" || role(t) == "handle").count() as u64;
 
     let early = |rep: &mut Report, when: String, extra: Value| {
         rep.violation(
@@ -939,16 +969,20 @@ fn refcount_storm(c: &Case, rep: &mut Report) {
     drop(pkg);
     drop(rt);
     drop(owner);
+    // the handle the threads cloned: still callable, then released
+    let r0 = pre_handle.call(1);
+    drop(pre_handle);
     if total_drops() != 0 {
-        early(rep, "after dropping the package, the runtime and the item while a function handle is alive".into(), json!({"first_call": r1}));
+        early(rep, "after dropping the package, the runtime, the item and the handle the threads cloned, while another function handle is alive".into(), json!({"calls": [r1, r0]}));
     }
     let r2 = main.call(1);
-    if r1 != expect_ret(before, 3) || r2 != expect_ret(before + 3, 1) || calls.load(Ordering::SeqCst) != before + 4 {
+    let want = [expect_ret(before, 3), expect_ret(before + 3, 1), expect_ret(before + 4, 1)];
+    if [r1, r0, r2] != want || calls.load(Ordering::SeqCst) != before + 5 {
         rep.violation(
             "after the concurrent phase the registered closure / constant no longer behaves as single-threaded",
             "share-call-differs:refcount-storm",
-            json!({"case": case, "observed": {"params": params, "got": [r1, r2], "expected": [expect_ret(before, 3), expect_ret(before + 3, 1)],
-                "calls_counted": calls.load(Ordering::SeqCst) - before, "expected_calls": 4}}),
+            json!({"case": case, "observed": {"params": params, "got": [r1, r0, r2], "expected": want,
+                "calls_counted": calls.load(Ordering::SeqCst) - before, "expected_calls": 5}}),
         );
     }
     drop(main);
